@@ -288,6 +288,7 @@ Definition call_fn (f:fn) (args:list pv) : res pv :=
       | PBool b => RVal (PInt (if b then 1 else 0))
       | _ => RCrash CTypeError
       end
+  | FRound, [v] => match as_num v with Some (_, q) => RVal (PInt (rhe q)) | None => RCrash CTypeError end     (* round(x): nearest integer, ties to even *)
   | FCeil, [v] => match as_num v with Some (_, q) => RVal (PInt (Qceiling q)) | None => RCrash CTypeError end
   | FList, [PList l] | FList, [PTuple l] => RVal (PList l)
   | FFigureTax, [a; st] => match as_num a with Some (_, q) => x_tax c q st | None => RCrash CTypeError end
